@@ -57,11 +57,15 @@ func isStreamType(t types.Type) bool {
 }
 
 type chunkRead struct {
-	site string // callee and position
-	pos  string
-	ord  int // how many length reads precede it on the path
-	ok   bool
-	fact string
+	site   string // callee and position
+	pos    string
+	ord    int // how many length reads precede it on the path
+	ok     bool
+	fact   string
+	callee *ssa.Function // nil for an interface method call
+	method string        // interface method called on the stream
+	elem   string        // element type of the buffer: byte | rune
+	min    string        // for io.ReadAtLeast: whether min is the buffer's length
 }
 
 // chunkReads explores dec and returns the verdict of every payload read
@@ -75,9 +79,6 @@ func (w *World) chunkReads(dec *ssa.Function) ([]chunkRead, bool) {
 		},
 		onInstr: func(fr *pxFrame, in ssa.Instruction, st *pxState) bool {
 			switch x := in.(type) {
-			case *ssa.MakeSlice:
-				// the length the buffer is made with, as of now
-				st.vals["mklen:"+px.term(x, fr, st).key] = px.term(x.Len, fr, st)
 			case *ssa.Call:
 				sc := x.Call.StaticCallee()
 				if w.isLengthReaderFn(sc) {
@@ -85,15 +86,15 @@ func (w *World) chunkReads(dec *ssa.Function) ([]chunkRead, bool) {
 					st.trace = append(st.trace, pxEvent{Kind: "lenread", Call: x, Frame: fr, Extra: fmt.Sprintf("<x#0%s>", ct.key), Pos: w.instrPos(x)})
 					return false
 				}
-				if sc == nil {
-					return true
-				}
-				if w.isTagSourceFn(sc) {
+				if sc != nil && w.isTagSourceFn(sc) {
 					return false
 				}
 				// a reader call taking the stream and a buffer
 				var buf ssa.Value
 				stream := false
+				if x.Call.IsInvoke() && isStreamType(x.Call.Value.Type()) {
+					stream = true
+				}
 				for _, a := range x.Call.Args {
 					switch {
 					case isStreamType(a.Type()):
@@ -113,8 +114,23 @@ func (w *World) chunkReads(dec *ssa.Function) ([]chunkRead, bool) {
 						ord++
 					}
 				}
-				cr := chunkRead{site: qualifiedFnName(sc), pos: w.instrPos(x), ord: ord}
+				cr := chunkRead{pos: w.instrPos(x), ord: ord, callee: sc, elem: "byte"}
+				if isRuneSlice(buf.Type()) {
+					cr.elem = "rune"
+				}
+				if sc != nil {
+					cr.site = qualifiedFnName(sc)
+				} else {
+					cr.method = x.Call.Method.Name()
+					cr.site = "(" + typeStr(x.Call.Value.Type()) + ")." + cr.method
+				}
 				bt := px.term(buf, fr, st)
+				if sc != nil && qualifiedFnName(sc) == "io.ReadAtLeast" && len(x.Call.Args) == 3 {
+					cr.min = "other"
+					if mt := px.term(x.Call.Args[2], fr, st); mt.key == px.lenTerm(bt, tInt).key || (st.vals["mklen:"+bt.key] != nil && st.vals["mklen:"+bt.key].key == mt.key) {
+						cr.min = "len"
+					}
+				}
 				var blen *Term
 				how := ""
 				switch {
@@ -126,7 +142,7 @@ func (w *World) chunkReads(dec *ssa.Function) ([]chunkRead, bool) {
 						how = "the buffer is a slice of " + root.key + ", whose size is unknown"
 						break
 					}
-					if R := px.linRange(linDiff(px.lin(rl, st), px.lin(hi, st)), st); R == nil || R.Min().Sign() < 0 {
+					if R := px.linRange(linDiff(px.lin(rl, st), px.lin(hi, st)), st); (R == nil || R.Min().Sign() < 0) && !knownLE(hi, rl, st.env) {
 						how = "buffer only re-sliced from an earlier one (cannot grow): a chunk longer than that buffer is truncated or panics"
 						break
 					}
@@ -170,17 +186,8 @@ func (w *World) ruleChunkBuffers(r *Report, rule string) {
 		}
 		fn := c.Dec
 		r.fnSeen(fnName(fn))
-		if w.chunkReadCache == nil {
-			w.chunkReadCache = map[*ssa.Function][]chunkRead{}
-			w.chunkTruncCache = map[*ssa.Function]bool{}
-		}
-		reads, have := w.chunkReadCache[fn]
-		if !have {
-			var tr bool
-			reads, tr = w.chunkReads(fn)
-			w.chunkReadCache[fn], w.chunkTruncCache[fn] = reads, tr
-		}
-		if w.chunkTruncCache[fn] {
+		reads, trunc := w.chunkReadsOf(fn)
+		if trunc {
 			r.undecided(rule, fnName(fn), w.pos(fn.Pos()), "path exploration exceeded its budget")
 			continue
 		}
@@ -226,4 +233,29 @@ func (w *World) ruleChunkBuffers(r *Report, rule string) {
 	}
 	// one chunk loop per decoder: a payload read reached after a second chunk header
 	r.floor(rule, n, 2)
+}
+
+// knownLE: the path has decided a comparison that says a <= b.
+func knownLE(a, b *Term, env Env) bool {
+	is := func(k string, v int64) bool {
+		s, ok := env[k]
+		return ok && s.Equal(single(v))
+	}
+	x, y := a.key, b.key
+	return is("("+x+" <= "+y+")", 1) || is("("+x+" > "+y+")", 0) || is("("+y+" >= "+x+")", 1) || is("("+y+" < "+x+")", 0) ||
+		is("("+x+" < "+y+")", 1) || is("("+y+" > "+x+")", 1) || is("("+x+" == "+y+")", 1) || is("("+y+" == "+x+")", 1)
+}
+
+// chunkReadsOf: chunkReads, cached.
+func (w *World) chunkReadsOf(fn *ssa.Function) ([]chunkRead, bool) {
+	if w.chunkReadCache == nil {
+		w.chunkReadCache = map[*ssa.Function][]chunkRead{}
+		w.chunkTruncCache = map[*ssa.Function]bool{}
+	}
+	if reads, have := w.chunkReadCache[fn]; have {
+		return reads, w.chunkTruncCache[fn]
+	}
+	reads, tr := w.chunkReads(fn)
+	w.chunkReadCache[fn], w.chunkTruncCache[fn] = reads, tr
+	return reads, tr
 }
